@@ -102,6 +102,96 @@ theorem cnf_ne_nil (c : Cond α) : cnf c ≠ [] ∧ ∀ g ∈ cnf c, g ≠ [] :=
       have := ihl.2 g1 h1
       simp [this]
 
+/-! ### the clauses of the canonical tree; semantics -/
+
+theorem flatten_foldl_or (t : Cond α) (rest : List α) (p : Conj) :
+    flatten (rest.foldl (fun t x => Cond.or t (.atom x)) t) p = flatten t p ++ rest.map fun x => (Conj.or_, x) := by
+  induction rest generalizing t with
+  | nil => simp
+  | cons x xs ih => simp [ih, flatten, List.append_assoc]
+
+theorem flatten_groupTree [Inhabited α] (g : List α) (hg : g ≠ []) (p : Conj) : flatten (groupTree g) p = groupClauses p g := by
+  cases g with
+  | nil => exact absurd rfl hg
+  | cons a t => simp [groupTree, orTree, flatten_foldl_or, flatten, groupClauses]
+
+theorem flatten_foldl_and [Inhabited α] (t : Cond α) (gs : List (List α)) (hne : ∀ g ∈ gs, g ≠ []) (p : Conj) :
+    flatten ((gs.map groupTree).foldl .and t) p = flatten t p ++ gs.flatMap (groupClauses .and_) := by
+  induction gs generalizing t with
+  | nil => simp
+  | cons g rest ih =>
+    simp only [List.map_cons, List.foldl_cons]
+    rw [ih _ (fun x hx => hne x (List.mem_cons_of_mem _ hx))]
+    simp [flatten, flatten_groupTree g (hne g (List.mem_cons_self ..)), List.append_assoc]
+
+/-- writing the canonical tree in order gives exactly the clauses of its groups -/
+theorem flatten_ofGroups [Inhabited α] (gs : List (List α)) (h0 : gs ≠ []) (hne : ∀ g ∈ gs, g ≠ []) :
+    flatten (ofGroups gs) .if_ = clausesOfGroups gs := by
+  cases gs with
+  | nil => exact absurd rfl h0
+  | cons g rest =>
+    simp only [ofGroups, List.headD_cons, List.tail_cons, clausesOfGroups]
+    rw [flatten_foldl_and _ rest (fun x hx => hne x (List.mem_cons_of_mem _ hx)), flatten_groupTree g (hne g (List.mem_cons_self ..))]
+
+/-- truth value of a condition under a valuation of its atoms -/
+def eval (v : α → Bool) : Cond α → Bool
+  | .atom a => v a
+  | .and l r => eval v l && eval v r
+  | .or l r => eval v l || eval v r
+
+/-- truth value of an AND of OR-groups -/
+def evalGroups (v : α → Bool) (gs : List (List α)) : Bool := gs.all fun g => g.any v
+
+theorem evalGroups_cnf (v : α → Bool) (c : Cond α) : evalGroups v (cnf c) = eval v c := by
+  induction c with
+  | atom a => simp [cnf, evalGroups, eval]
+  | and l r ihl ihr => simp only [cnf, eval, ← ihl, ← ihr, evalGroups, List.all_append]
+  | or l r ihl ihr =>
+    simp only [cnf, eval, ← ihl, ← ihr, evalGroups]
+    generalize cnf l = L
+    generalize cnf r = R
+    induction L with
+    | nil => simp
+    | cons g1 t ih =>
+      simp only [List.flatMap_cons, List.all_append, List.all_cons, List.all_map, ih]
+      have : (R.all fun g2 => (g1 ++ g2).any v) = (g1.any v || R.all fun g2 => g2.any v) := by
+        induction R with
+        | nil => simp
+        | cons g2 r2 ih2 =>
+          simp only [List.all_cons, List.any_append, ih2]
+          cases g1.any v <;> simp
+      simp only [Function.comp_def, this]
+      cases g1.any v <;> cases (t.all fun g => g.any v) <;> simp
+
+theorem eval_foldl_or (v : α → Bool) (t : Cond α) (rest : List α) :
+    eval v (rest.foldl (fun t x => Cond.or t (.atom x)) t) = (eval v t || rest.any v) := by
+  induction rest generalizing t with
+  | nil => simp
+  | cons x xs ih => simp [ih, eval, Bool.or_assoc]
+
+theorem eval_groupTree [Inhabited α] (v : α → Bool) (g : List α) (hg : g ≠ []) : eval v (groupTree g) = g.any v := by
+  cases g with
+  | nil => exact absurd rfl hg
+  | cons a t => simp [groupTree, orTree, eval_foldl_or, eval]
+
+theorem eval_foldl_and [Inhabited α] (v : α → Bool) (t : Cond α) (gs : List (List α)) (hne : ∀ g ∈ gs, g ≠ []) :
+    eval v ((gs.map groupTree).foldl .and t) = (eval v t && evalGroups v gs) := by
+  induction gs generalizing t with
+  | nil => simp [evalGroups]
+  | cons g rest ih =>
+    simp only [List.map_cons, List.foldl_cons]
+    rw [ih _ (fun x hx => hne x (List.mem_cons_of_mem _ hx))]
+    simp [eval, evalGroups, eval_groupTree v g (hne g (List.mem_cons_self ..)), Bool.and_assoc]
+
+theorem eval_ofGroups [Inhabited α] (v : α → Bool) (gs : List (List α)) (h0 : gs ≠ []) (hne : ∀ g ∈ gs, g ≠ []) :
+    eval v (ofGroups gs) = evalGroups v gs := by
+  cases gs with
+  | nil => exact absurd rfl h0
+  | cons g rest =>
+    simp only [ofGroups, List.headD_cons, List.tail_cons]
+    rw [eval_foldl_and v _ rest (fun x hx => hne x (List.mem_cons_of_mem _ hx)), eval_groupTree v g (hne g (List.mem_cons_self ..))]
+    simp [evalGroups]
+
 /-- the normal form of a rule condition is stable: normalising again changes nothing -/
 theorem condNorm_idem [Inhabited α] (c : Cond α) : ofGroups (cnf (ofGroups (cnf c))) = ofGroups (cnf c) := by
   rw [cnf_ofGroups (cnf c) (cnf_ne_nil c).1 (cnf_ne_nil c).2]
